@@ -19,4 +19,7 @@ MUTANTS = [
     M('C20', 'api: one wrapper defaults to width 32', QS, "def assemble_and_debug(\n    fj_file_paths: List[Path],\n    *,\n    memory_width: int = 64,", "def assemble_and_debug(\n    fj_file_paths: List[Path],\n    *,\n    memory_width: int = 32,", 'C20.DEFAULTS'),
     M('C20', 'cli: --asm still runs', CLI, "        if not args.asm:\n            run(in_fjm_path, debug_path, args, error_func)", "        if not args.run:\n            run(in_fjm_path, debug_path, args, error_func)", 'C20.FLOWS'),
     M('C20', 'cli: option defined but never read', CLI, "        show_statistics=args.stats,\n", "        show_statistics=False,\n", 'C20.SINKS'),
+    M('C20', 'silent mode also drops the implicit debug file (seed C20_2)', 'flipjump/flipjump_cli.py', "            print(f\"{parser_warning} Debugging data will be saved.\")\n        debug_file = ''", "            print(f\"{parser_warning} Debugging data will be saved.\")\n            debug_file = ''", 'C20.REPORT-ONLY'),
+    M('C20', 'print_termination also decides the returned value', 'flipjump/flipjump_quickstart.py', "    if print_termination:\n", "    if print_termination:\n        return termination_statistics\n", 'C20.REPORT-ONLY'),
+    M('C20', 'EQ silent warning text bound outside the gate', 'flipjump/flipjump_cli.py', "        if not args.silent:\n            parser_warning = 'Parser Warning - breakpoints are used but the debugging flag (-d) is not specified.'\n", "        parser_warning = 'Parser Warning - breakpoints are used but the debugging flag (-d) is not specified.'\n        if not args.silent:\n", None),
 ]
